@@ -204,7 +204,7 @@ def run(chk, facts_dir, tier):
     chk.analysed(fb.path)
 
     def str_consts(op):
-        c = (op.get("sv") or op.get("c")) if isinstance(op, dict) else None
+        c = (prog.sconsts.get(op.get("named") or "") or op.get("c")) if isinstance(op, dict) else None
         if isinstance(c, str) and c.startswith("const "):
             c = c[6:]
         return c[1:-1] if isinstance(c, str) and len(c) >= 2 and c[0] == '"' and c[-1] == '"' and op.get("ty") == "&str" else None
